@@ -119,7 +119,7 @@ package influxql
 
 // Parser.Scan / ScanRegex: one token is delivered: from the ring (depth-1) or scanned (depth stays 0)
 //@ func (*Parser).Scan
-//@   modifies fresh, bufScanner.*, reader.*, Lib#rscur, Lib#content, SelectStatement.IsRawQuery, SelectStatement.groupByInterval, Cell#error, validateField
+//@   modifies @ast, bufScanner.*, reader.*, Lib#rscur, SelectStatement.IsRawQuery, SelectStatement.groupByInterval
 //@   frameprops C04 C17
 //@   props C04 C07
 //@   safety C04
@@ -130,7 +130,7 @@ package influxql
 //@   ensures old(p.s.n) == 0 ==> p.s.n == 0
 
 //@ func (*Parser).ScanRegex
-//@   modifies fresh, bufScanner.*, reader.*, Lib#rscur, Lib#content, SelectStatement.IsRawQuery, SelectStatement.groupByInterval, Cell#error, validateField
+//@   modifies @ast, bufScanner.*, reader.*, Lib#rscur, SelectStatement.IsRawQuery, SelectStatement.groupByInterval
 //@   frameprops C04 C17
 //@   props C04 C07
 //@   safety C04
@@ -141,7 +141,7 @@ package influxql
 //@   ensures old(p.s.n) == 0 ==> p.s.n == 0
 
 //@ func (*Parser).ScanIgnoreWhitespace
-//@   modifies fresh, bufScanner.*, reader.*, Lib#rscur, Lib#content, SelectStatement.IsRawQuery, SelectStatement.groupByInterval, Cell#error, validateField
+//@   modifies @ast, bufScanner.*, reader.*, Lib#rscur, SelectStatement.IsRawQuery, SelectStatement.groupByInterval
 //@   frameprops C04 C17
 //@   props C04 C07 C16
 //@   safety C04
@@ -154,7 +154,7 @@ package influxql
 //@   loop 1 invariant p.s == entry(p.s) && p.s.s == entry(p.s.s) && p.s.s.r == entry(p.s.s.r) && 0 <= p.s.s.r.i && p.s.s.r.i < 3 && 0 <= p.s.s.r.n && p.s.s.r.n <= 3 && 0 <= p.s.i && p.s.i < 3 && 0 <= p.s.n && p.s.n <= entry(p.s.n)
 
 //@ func (*Parser).consumeWhitespace
-//@   modifies fresh, bufScanner.*, reader.*, Lib#rscur, Lib#content, SelectStatement.IsRawQuery, SelectStatement.groupByInterval, Cell#error, validateField
+//@   modifies @ast, bufScanner.*, reader.*, Lib#rscur, SelectStatement.IsRawQuery, SelectStatement.groupByInterval
 //@   frameprops C04 C17
 //@   props C04 C16
 //@   safety C04
@@ -164,7 +164,7 @@ package influxql
 //@   ensures p.s.n <= old(p.s.n) || (old(p.s.n) == 0 && p.s.n <= 1)
 
 //@ func (*Parser).parseTokens
-//@   modifies fresh, bufScanner.*, reader.*, Lib#rscur, Lib#content, SelectStatement.IsRawQuery, SelectStatement.groupByInterval, Cell#error, validateField
+//@   modifies @ast, bufScanner.*, reader.*, Lib#rscur, SelectStatement.IsRawQuery, SelectStatement.groupByInterval
 //@   frameprops C04 C17
 //@   props C04
 //@   safety C04
@@ -181,7 +181,7 @@ package influxql
 // (Handlers added by users of the exported Language variable are assumed to
 // satisfy it as well.)
 //@ func fntype:func(*Parser) (Statement, error)
-//@   modifies fresh, bufScanner.*, reader.*, Lib#rscur, Lib#content, SelectStatement.IsRawQuery, SelectStatement.groupByInterval, Cell#error, validateField
+//@   modifies @ast, bufScanner.*, reader.*, Lib#rscur, SelectStatement.IsRawQuery, SelectStatement.groupByInterval
 //@   frameprops C04 C17
 //@   props C04
 //@   safety C04
@@ -197,7 +197,7 @@ package influxql
 //@ globalinv Language != nil
 
 //@ func (*ParseTree).Parse
-//@   modifies fresh, bufScanner.*, reader.*, Lib#rscur, Lib#content, SelectStatement.IsRawQuery, SelectStatement.groupByInterval, Cell#error, validateField
+//@   modifies @ast, bufScanner.*, reader.*, Lib#rscur, SelectStatement.IsRawQuery, SelectStatement.groupByInterval
 //@   frameprops C04 C17
 //@   props C04
 //@   safety C04
